@@ -1,6 +1,8 @@
 package rules
 
 import (
+	"go/token"
+	"strings"
 	"go/ast"
 	"go/types"
 
@@ -166,6 +168,86 @@ func c23(c *core.Ctx) {
 			}
 		}
 		rW.Check(nameOK, mig.Key+":name-from-meta", mig.Decl.Pos(), "swamp name from the legacy meta file", "the migrated file does not carry the swamp name of the legacy swamp")
+	}
+
+	rA := c.Rule("C23.alias", "the record bytes the migrator keeps (Entry.Data) own their memory: every byte-slice reader method of the migrator returns a fresh copy, or - when one returns a window of its input - every buffer handed to a decoder in the migrator is fresh per call (no caller-supplied, reused destination buffer)", 2)
+	{
+		// reader methods returning []byte from a []byte field
+		aliasing := []string{}
+		nReaders := 0
+		for _, f := range p.FuncsIn(pkgMigrator) {
+			if f.Decl.Body == nil || f.Decl.Recv == nil {
+				continue
+			}
+			sig := f.Obj.Type().(*types.Signature)
+			if sig.Results().Len() == 0 || sig.Results().At(0).Type().String() != "[]byte" {
+				continue
+			}
+			fi := f.Info()
+			// receiver has a []byte field that is sliced in the body
+			ast.Inspect(f.Decl.Body, func(x ast.Node) bool {
+				ret, ok := x.(*ast.ReturnStmt)
+				if !ok || len(ret.Results) == 0 {
+					return true
+				}
+				e := core.Unparen(ret.Results[0])
+				if id, isId := e.(*ast.Ident); isId {
+					if def := localDef(fi, f.Decl.Body, fi.Uses[id]); def != nil {
+						e = core.Unparen(def)
+					}
+				}
+				if se, isSlice := e.(*ast.SliceExpr); isSlice {
+					if fld := core.FieldOf(fi, se.X); fld != nil && fld.Type().String() == "[]byte" {
+						aliasing = append(aliasing, f.Key)
+					}
+				}
+				return true
+			})
+			touches := false
+			ast.Inspect(f.Decl.Body, func(x ast.Node) bool {
+				if se, ok := x.(*ast.SliceExpr); ok {
+					if fld := core.FieldOf(fi, se.X); fld != nil && fld.Type().String() == "[]byte" {
+						touches = true
+					}
+				}
+				return true
+			})
+			if touches {
+				nReaders++
+				c.Touch(f)
+			}
+		}
+		// decoders with caller-supplied destination
+		reused := []string{}
+		for _, f := range p.FuncsIn(pkgMigrator) {
+			if f.Decl.Body == nil {
+				continue
+			}
+			fi := f.Info()
+			core.Calls(f.Decl.Body, true, func(call *ast.CallExpr) {
+				fo := core.Callee(fi, call)
+				if fo == nil || fo.Pkg() == nil || p.ByObj[fo] != nil {
+					return
+				}
+				// library decode functions of the shape f(dst, src []byte) ([]byte, error)
+				sg, _ := fo.Type().(*types.Signature)
+				if sg == nil || sg.Params().Len() < 2 || sg.Results().Len() < 1 {
+					return
+				}
+				if sg.Params().At(0).Type().String() != "[]byte" || sg.Params().At(1).Type().String() != "[]byte" || sg.Results().At(0).Type().String() != "[]byte" {
+					return
+				}
+				if !strings.Contains(strings.ToLower(fo.Name()), "decode") && !strings.Contains(strings.ToLower(fo.Name()), "decompress") && !strings.Contains(strings.ToLower(fo.Name()), "uncompress") {
+					return
+				}
+				if !core.IsNilIdent(fi, call.Args[0]) {
+					reused = append(reused, f.Key+":"+core.QName(fo))
+				}
+			})
+		}
+		rA.Check(nReaders >= 1, pkgMigrator+":byte-readers", token.NoPos, "byte-slice readers found", "no byte-slice reader found in the migrator")
+		bad := len(aliasing) > 0 && len(reused) > 0
+		rA.Check(!bad, pkgMigrator+":record-bytes-own-their-memory", token.NoPos, "readers copy, or decode buffers are fresh per call", "record bytes are windows of the decode buffer ("+strings.Join(aliasing, ", ")+" returns a sub-slice) and that buffer is supplied by the caller and reused ("+strings.Join(reused, ", ")+"): the next chunk overwrites the Data of records collected from earlier chunks; keys stay right, so key-only verification passes and the legacy files may be deleted")
 	}
 
 	rT := c.Rule("C23.type", "the migrator gob-decodes legacy records into the same Go type (treasure.Model) that treasure.ConvertToByte encodes and treasure.LoadFromByte decodes", 3)
